@@ -54,6 +54,15 @@ def mergeWith (s o : Summary) : Summary :=
   let s := if F64.lt o.min s.min then { s with min := o.min } else s
   if F64.lt s.max o.max then { s with max := o.max } else s
 
+/-- `s.MergeWith(s)`: the argument IS the receiver, so `o.sumCompensation` is read after the first
+    compensated addition has already updated it (and `o.sum`, `o.simpleSum`, `o.count` are the
+    receiver's current fields); the extremes are unchanged -/
+def mergeWithSelf (s : Summary) : Summary :=
+  let s := { s with count := F64.add s.count s.count }
+  let s := s.sumWithCompensation s.sum
+  let s := s.sumWithCompensation s.sumCompensation
+  { s with simpleSum := F64.add s.simpleSum s.simpleSum }
+
 def reweight (s : Summary) (f : F64) : Summary :=
   let s := { s with count := F64.mul s.count f, sum := F64.mul s.sum f,
                     sumCompensation := F64.mul s.sumCompensation f, simpleSum := F64.mul s.simpleSum f }
